@@ -4,6 +4,8 @@ package checks
 
 import (
 	"context"
+	"crypto/sha1"
+	"encoding/hex"
 	"encoding/json"
 	"fmt"
 	"strings"
@@ -22,6 +24,26 @@ import (
 // ages relative to the period: 0 = absent, 1 = period+1ns (expired), 2 = exactly the period
 // (boundary, not pinned), 3 = period-1ns (young), 4 = brand new
 var c12Ages = []string{"absent", "period+1ns", "period", "period-1ns", "new"}
+
+// c12BoxName: the mailboxes of a case are neighbours in the file store's directory tree - the
+// second shares the first three hex digits of its name hash with the first (same level-1
+// directory, different level-2 directory), the third shares the first six (same level-2
+// directory): emptying one of them must leave the others alone.
+func c12BoxName(i int) string {
+	names := []string{storeBoxes[0], storeBoxes[1], "t15482075"}
+	if i < len(names) {
+		return names[i]
+	}
+	return fmt.Sprintf("box%d", i)
+}
+
+func init() {
+	h := func(s string) string { x := sha1.Sum([]byte(s)); return hex.EncodeToString(x[:]) }
+	a, b, t := h(c12BoxName(0)), h(c12BoxName(1)), h(c12BoxName(2))
+	if a[:3] != b[:3] || a[:6] == b[:6] || a[:6] != t[:6] || a == t {
+		panic("VERIF-INFRA c12 mailbox names no longer have the intended hash shape")
+	}
+}
 
 type c12Case struct {
 	Backend string  `json:"backend"`
@@ -56,7 +78,7 @@ func c12Exec(c *fw.Ctx, cas c12Case) (nontrivial bool) {
 		}
 		for _, bi := range order {
 			slots := cas.Boxes[bi]
-			mb := fmt.Sprintf("box%d", bi)
+			mb := c12BoxName(bi)
 			for si, a := range slots {
 				if cas.Restart && bi == 0 && si == 1 {
 					sh.ReopenInBubble()
